@@ -290,6 +290,9 @@ func twinnable(req Request, res *SearchResult) bool {
 func (r *searchRun) check(g *ref.Game, req Request, res *SearchResult, si int) {
 	r.out.Violations = append(r.out.Violations, checkC06(g, req, res, si)...)
 	r.out.Violations = append(r.out.Violations, checkC07(g, req, res, si)...)
+	if res.Interference != "" {
+		r.out.Violations = append(r.out.Violations, Violation{Property: "C08", Kind: "instance-interference", Detail: res.Interference + "; root=" + g.Cur().FEN(), Step: si})
+	}
 	if res.Overspend != "" {
 		r.out.Violations = append(r.out.Violations, Violation{Property: "C08", Kind: "overspend", Detail: res.Overspend + " root=" + g.Cur().FEN(), Step: si})
 	}
